@@ -96,28 +96,35 @@ ASSUMPTIONS = [
     "ignored",
 ]
 BOUND = {
-    "quick": "fits: class A (526 distinct tuples) x (24 cube rotations + 13 "
-    "axes x multiples of 15 deg) x 4 translations (max 9e4 A), handedness "
-    "probe / further rigid motion / rounded-structure motion on the 30 deg "
-    "sub-lattice; classes B and C (4- and 5-point) x (cube + 13 axes x "
-    "multiples of 60 deg) with the translations cycled, probe on the cube "
-    "rotations; all 2-point tetrahedral tuples x 30 deg lattice x 4 "
+    "quick": "fits: class A (533 distinct tuples standing for all 359 "
+    "templates) x (24 cube rotations + 13 axes x multiples of 15 deg) x 4 "
+    "translations (max 9e4 A), handedness probe / further rigid motion / "
+    "rounded-structure motion on the 30 deg sub-lattice; classes B (2194) "
+    "and C (1921, 4- and 5-point) x (cube + 13 axes x multiples of 60 deg) "
+    "with the translations cycled, probe on the cube rotations; the "
+    "ill-conditioned stratum of class D (54 tuples whose reference points "
+    "have sigma2 < 0.05 A) x 30 deg lattice x 4 translations + probe; all "
+    "39 distinct 2-point tetrahedral tuples x 30 deg lattice x 4 "
     "translations; torsions: every template dihedral of 30 residue states "
     "mid-chain x (12 starts on the 30 deg lattice x 72 targets, both ways) "
     "+ 49 fine/out-of-range targets; chain ends and one seed-chosen rigid "
     "pose with starts {0,180}; rotate_tetrahedral: every ordered bonded pair "
-    "x 36 targets; qchichange: 26 lattice axes x 4 scales x multiples of 5 "
-    "deg in [-360,720] (15 deg for scaled axes) + fine, template bond axes "
-    "of the 26 base templates x 15 deg lattice",
+    "x 30 targets x (3 positions + 1 pose); qchichange: 26 lattice axes x "
+    "(unit length: multiples of 5 deg in [-360,720] + fine; 3 other lengths: "
+    "multiples of 15 deg), template bond axes of the 26 base templates x "
+    "15 deg lattice",
     "thorough": "fits: class A x (cube + 13 axes x multiples of 5 deg) x 5 "
     "translations (adds the PDB maximum 9999.999) with probe, further motion "
-    "and rounded-structure motion; class B x 15 deg lattice x 5 translations "
-    "likewise; class C (4, 5, all neighbours) x 30 deg lattice x 5 "
-    "translations + probe; class D (every 3-subsequence of the first six "
-    "neighbours) x 30 deg lattice, translations cycled; torsions: every "
-    "ordered (start,target) pair of the 5 deg lattice mid-chain, 15 deg "
-    "start lattice at the chain ends, three further rigid poses; "
-    "rotate_tetrahedral x 84 targets x 3 positions x 4 poses; qchichange "
+    "and rounded-structure motion on every rotation; class B x 15 deg "
+    "lattice x 5 translations (probe / motions on the 30 deg sub-lattice); "
+    "class C x 30 deg lattice x 5 translations + probe; class D (8844 "
+    "tuples: every 3-subsequence of the first six neighbours) and class E "
+    "(2417: complete neighbour lists, up to 22 points) x 30 deg lattice, "
+    "translations cycled, the ill-conditioned stratum with the full "
+    "product; torsions: every ordered (start,target) pair of the 5 deg "
+    "lattice mid-chain, 30 deg start lattice at the chain ends and for "
+    "three further rigid poses (offsets up to 9e4 A); rotate_tetrahedral x "
+    "84 targets (pose 0) / 30 targets x 3 positions x 4 poses; qchichange "
     "bond axes of all 194 canonical templates x 5 deg lattice",
 }
 
@@ -605,8 +612,7 @@ def run_fit(case):
                     continue
                 sig = ("C15/fit/does-not-move-with-structure"
                        if d_move > TOL_EQUIV else
-                       "C15/fit/error>1e-6/translation="
-                       + tlabel(R2 @ tarr[i_eq] + t2a))
+                       "C15/fit/error>1e-6/after-further-motion")
                 if near:
                     sig = "C15/fit/error>1e-6/near-collinear-references"
                 violate(sig,
@@ -939,7 +945,7 @@ def run_torsion(case):
 
     def mini(i):
         return {"mode": "torsion", "x": x, "pos": pos, "pose": pose, "k": k,
-                "dihedral": dihedral, "walk": walk[max(0, i - 1):i + 1]}
+                "dihedral": dihedral, "walk": walk[:i + 1]}
 
     snaps = [_snap(atoms)]
     stored = []
@@ -1065,7 +1071,7 @@ def run_tetra(case):
 
         def mini(i):
             return {"mode": "tetra", "x": x, "pos": pos, "pose": pose,
-                    "pair": [a1.name, a2.name], "targets": [targets[i]]}
+                    "pair": [a1.name, a2.name], "targets": targets[:i + 1]}
 
         snaps = [home]
         deltas = []
